@@ -2,7 +2,10 @@
    Nothing here calls the parser or the builder model: the expectations come from the hand-written
    protocol description (Model/UriSpec.v: parameter names, legal values, abstract builder) and from
    the map operations of Model/UriTypes.v. Model/Uri.v is imported for the observation types only. *)
-Require Import V.Base.MachineInt V.Model.UriTypes V.Model.UriSpec V.Model.Uri.
+Require Import V.Base.MachineInt.
+Require Import V.Model.UriTypes.
+Require Import V.Model.UriSpec.
+Require Import V.Model.Uri.
 Open Scope Z_scope.
 
 Definition pobs_same (a b : pobs) : bool :=
